@@ -24,7 +24,7 @@ def run(chk):
     repo = Repo(chk.repo)
     # R12.10: integer arguments are values like any other; numba keeps them integers until they meet a float (an integer-literal power is taken first)
     from .common import int_power_lint
-    int_power_lint(chk, repo, 'R12.10', ['TidalPy/tides/love1d.py'])
+    int_power_lint(chk, repo, 'R12.10', ['TidalPy/tides/love1d.py', 'TidalPy/toolbox/quick_tides.py'])
     m = repo.by_path('TidalPy/tides/love1d.py')
     it = Interp(repo)
     mu = X.atom('mu', 'pos'); g = X.atom('g', 'pos'); R = X.atom('R', 'pos'); rho = X.atom('rho', 'pos')
